@@ -1,13 +1,18 @@
 """C19: results depend on arguments only, not on history, threads or heap contents.
 
 Part (1): the masked-call discipline for every `where=` call of the tree (translator/sites.py ->
-Gen/MaskedSites.v, proved in Proof/MaskedProofs.v / Props/C19.v).  Part (2), this module: a fixed
+Gen/MaskedSites.v, proved in Proof/MaskedProofs.v / Props/C19.v), and -- round 2 -- write-before-read for
+every allocation that does not initialise memory plus the absence of result caches (second scan of
+translator/sites.py -> Gen/AllocSites.v, Proof/AllocProofs.v).  Part (2), this module: a fixed
 list of numerical routines is re-run under perturbed conditions -- repeated call in one process,
 fresh argument objects, preceding allocate-fill-free of same-size blocks (NaN and 0xFF patterns),
 OMP_NUM_THREADS 1 vs 8 (two persistent child processes), a young vs an old process -- and must
-return bit-identical results and leave its arguments byte-identical.
+return bit-identical results and leave its arguments byte-identical.  Round 2 adds the in-place-overwrite
+history probe (call on A, overwrite the SAME objects with B, call again, compare with a call on fresh B) for
+every routine, the same probe on files rewritten at the same path for the loaders, and NumPy's slice-store
+semantics against Model/Alloc.v.
 """
-import atexit, hashlib, json, os, subprocess, sys, threading
+import atexit, copy, hashlib, json, os, shutil, subprocess, sys, tempfile, threading
 from fractions import Fraction as F
 
 HERE = os.path.dirname(os.path.abspath(__file__))
@@ -20,9 +25,10 @@ import numpy as np
 
 PID = "C19"
 PROPS_FILE = "Props/C19.v"
-MODEL_TARGETS = ["Model/Masked.vo", "Proof/MaskedProofs.vo", "Gen/MaskedSites.vo"]
-GEN_FILES = ["Gen/MaskedSites.v"]
-CASE_HEADER = ("From Coq Require Import List ZArith QArith Bool.\nFrom EV Require Import Masked MaskedSites.\n"
+MODEL_TARGETS = ["Model/Masked.vo", "Proof/MaskedProofs.vo", "Gen/MaskedSites.vo",
+                 "Model/Alloc.vo", "Proof/AllocProofs.vo", "Gen/AllocSites.vo"]
+GEN_FILES = ["Gen/MaskedSites.v", "Gen/AllocSites.v"]
+CASE_HEADER = ("From Coq Require Import List ZArith QArith Bool.\nFrom EV Require Import Masked MaskedSites Alloc AllocSites.\n"
                "Import ListNotations.\n")
 SHARD = 250
 RULE = ("(a) one `sites` case: translator/sites.py scans every .py/.pyx under enspara/ (test excluded); each masked call "
@@ -37,13 +43,31 @@ RULE = ("(a) one `sites` case: translator/sites.py scans every .py/.pyx under en
         "repeat, after freeing NaN-filled / 0xFF-filled blocks of every size occurring in arguments and result (7 per "
         "size = NumPy's per-bucket cache depth), with freshly built arguments, and in a recently started process; all "
         "digests (dtype, shape, raw bytes) must coincide and the argument digest must not change. non-trivial := the "
-        "routine returned a value (not an exception) in every condition of both children")
+        "routine returned a value (not an exception) in every condition of both children. Round 2: (a') the same `sites` "
+        "case also runs the second scan: every np.empty/np.empty_like/np.ndarray(shape) allocation must be completed by a "
+        "recognised store pattern, no result-cache idiom may exist; the compiled Gen/AllocSites.v must list the same sites. "
+        "(d) `wbr` cases: random store programs (fill, slice stores, index stores, the cursor loop, the enumerate loop) on "
+        "a real NumPy buffer pre-filled with known junk against Model/Alloc.v `run`, and `all_written` against whether two "
+        "different junk fillings give the same array. (e) every `run` case carries a second content B of the same shapes: "
+        "after the conditions above the argument objects are overwritten IN PLACE with B (ndarray cells, the attribute "
+        "dictionary of a sparse matrix, RaggedArray._data), the routine is called again on the same objects and must "
+        "return bit-for-bit what it returns on freshly built B. (f) `file` cases: ra.load and load_as_concatenated on files "
+        "that are rewritten at the same path (same mtime restored) between two calls, compared with a fresh path")
 TRUSTED = ["translator/sites.py: the `where=` scan (ast for .py, token scan + per-call parse for .pyx), its tables of ufunc / "
            "reduction / allocator names, and the rule that a where= passed through **kwargs or a partial is not seen",
            "heap perturbation is best effort: it relies on NumPy's small-block cache (< 1024 bytes, exact size buckets) and "
            "glibc's tcache handing a just-freed block to the next request of that size; reproduced D14 50/50 with it",
            "modelled not verified: broadcasting (arrays are flattened to a common shape), NumPy's ufunc inner loops",
-           "OMP thread count is set through the environment of two child processes (1 and 8)"]
+           "OMP thread count is set through the environment of two child processes (1 and 8)",
+           "translator/sites.py second scan: its list of uninitialising allocators (np.empty, empty_like, ndarray(shape), "
+           "masked_all, as_strided; malloc & co / C stack arrays in .pyx), the statement-shape recognisers for the five "
+           "completion patterns, and the rule that the buffer may not be mentioned in between except for metadata",
+           "MPI semantics (not run here): Bcast/Recv/Allgather fill the whole receive buffer with the message",
+           "the cache scan is syntactic: lru_cache-style decorators, id(), identifiers containing cache/memo, module-level "
+           "dict/list mutated from functions, mutable defaults stored into, `global` outside the pool-initialiser idiom; "
+           "instance attributes holding earlier results under other names are seen only by the overwrite probe",
+           "in-place overwrite of a scipy sparse matrix = replacing its attribute dictionary (object identity kept); of a "
+           "RaggedArray = overwriting the cells of its _data (and of _array where that holds copies of the rows)"]
 ASSUMPTIONS = ["masked operations: operands, mask and out already broadcast to one shape",
                "process-pool code paths (n_procs > 1) are not exercised"]
 
@@ -665,6 +689,158 @@ def c_ra(a, p):
     raise KeyError(op)
 
 
+
+# ============================================================================ content B of the same shapes
+def _redraw_C(rng, p, **kw):
+    q = copy.deepcopy(p)
+    q["C"] = _counts_matrix(rng, len(p["C"]), **kw)
+    return q
+
+
+def v_entropy(rng, p):
+    q = copy.deepcopy(p)
+    q["counts"] = [rng.choice([0, 0, 1, 2, 3, 5]) for _ in p["counts"]]
+    if sum(q["counts"]) == 0:
+        q["counts"][rng.randrange(len(q["counts"]))] = 2
+    return q
+
+
+def v_kl(rng, p):
+    q = copy.deepcopy(p)
+    for key in ("P", "Q"):
+        q[key] = [[rng.choice([0, 1, 1, 2, 3]) for _ in r] for r in p[key]]
+        for r in q[key]:
+            if sum(r) == 0:
+                r[0] = 1
+    return q
+
+
+def v_jc(rng, p):
+    q = copy.deepcopy(p)
+    q["X"] = [[rng.randrange(p["nx"]) for _ in r] for r in p["X"]]
+    if p["Y"] is not None:
+        q["Y"] = [[rng.randrange(p["ny"]) for _ in r] for r in p["Y"]]
+    return q
+
+
+def v_mi(rng, p):
+    q = copy.deepcopy(p)
+    q["jc"] = [[[[0 for _ in row] for row in blk] if rng.random() < 0.35 else
+                [[rng.choice([0, 0, 1, 2, 5]) for _ in row] for row in blk] for blk in fr] for fr in p["jc"]]
+    return q
+
+
+def v_mimat(rng, p):
+    q = copy.deepcopy(p)
+    f, n = p["f"], p["n"]
+    mk = lambda T: [[(0 if (k == f - 1 and rng.random() < 0.5) else rng.randrange(n)) for k in range(f)] for _ in range(T)]
+    q["Xs"] = [mk(len(x)) for x in p["Xs"]]
+    q["Ys"] = [mk(len(y)) for y in p["Ys"]]
+    return q
+
+
+def v_wmi(rng, p):
+    q = copy.deepcopy(p)
+    q["features"] = [[rng.randrange(p["n"]) for _ in r] for r in p["features"]]
+    if rng.random() < 0.5:
+        for r in q["features"]:
+            r[0] = 0
+    q["w"] = [rng.choice([0, 1, 1, 2, 3]) for _ in p["w"]]
+    if sum(q["w"]) == 0:
+        q["w"][0] = 1
+    return q
+
+
+def v_a2c(rng, p):
+    q = copy.deepcopy(p)
+    n = max(max(t) for t in p["trjs"]) + 1
+    q["trjs"] = [[rng.randrange(n) for _ in t] for t in p["trjs"]]
+    return q
+
+
+def v_arpack(rng, p):
+    q = copy.deepcopy(p)
+    q["seed"] = rng.randrange(10 ** 6)
+    return q
+
+
+def v_cluster(rng, p):
+    q = copy.deepcopy(p)
+    q["X"] = [[rng.randint(-3, 3) for _ in r] for r in p["X"]]
+    return q
+
+
+def v_dist(rng, p):
+    q = copy.deepcopy(p)
+    d = len(p["y"])
+    if d >= 1000:
+        # keep the input rounding-sensitive: the huge coordinate moves to another column
+        rows = []
+        for _ in p["X"]:
+            k = rng.randrange(d)
+            rows.append([1] * k + [2 ** 27] + [1] * (d - 1 - k))
+        q["X"] = rows
+        q["y"] = [rng.choice([0, 1]) for _ in range(d)] if rng.random() < 0.5 else [0] * d
+    else:
+        q["X"] = [[rng.randint(-4, 4) for _ in r] for r in p["X"]]
+        q["y"] = [rng.randint(-4, 4) for _ in p["y"]]
+    return q
+
+
+def v_ra(rng, p):
+    q = copy.deepcopy(p)
+    q["rows"] = [[rng.randint(-3, 6) for _ in r] for r in p["rows"]]
+    return q
+
+
+v_builder = lambda rng, p: _redraw_C(rng, p)
+v_trim = lambda rng, p: _redraw_C(rng, p, zero_p=0.6, connected=False)
+
+VARY = {
+    "shannon_entropy": v_entropy, "kl_divergence": v_kl, "joint_counts": v_jc, "mutual_information": v_mi,
+    "mi_matrix": v_mimat, "weighted_mi": v_wmi, "builders.normalize": v_builder, "builders.transpose": v_builder,
+    "builders.mle": v_builder, "assigns_to_counts": v_a2c, "trim_disconnected": v_trim, "eigenspectrum": v_builder,
+    "eq_probs": v_builder, "eigenspectrum.arpack": v_arpack, "committors": v_builder, "mfpts_sinks": v_builder,
+    "mfpts_all": v_builder, "reactive_fluxes": v_builder, "net_fluxes": v_builder, "reactive_populations": v_builder,
+    "top_path": v_builder, "paths": v_builder, "assign_to_nearest_center": v_cluster, "kcenters": v_cluster,
+    "libdist.euclidean": v_dist, "libdist.manhattan": v_dist, "libdist.hamming": v_dist, "libdist.out_vs_noout": v_dist,
+    "RaggedArray.ops": v_ra,
+}
+
+
+def _overwrite(dst, src):
+    """Give the object `dst` the contents of `src` without changing its identity.  False when the two do not have the
+    same layout (then the probe is not applied)."""
+    import scipy.sparse as sp
+    if isinstance(dst, np.ndarray):
+        if not isinstance(src, np.ndarray) or dst.shape != src.shape or dst.dtype != src.dtype or dst.dtype == object:
+            return False
+        dst[...] = src
+        return True
+    if sp.issparse(dst):
+        if type(dst) is not type(src) or dst.shape != src.shape:
+            return False
+        new = copy.deepcopy(src.__dict__)
+        dst.__dict__.clear()
+        dst.__dict__.update(new)
+        return True
+    if type(dst).__name__ == "RaggedArray":
+        if type(src) is not type(dst) or list(dst.lengths) != list(src.lengths) or dst._data.dtype != src._data.dtype \
+                or dst._data.shape != src._data.shape or dst._data.dtype == object:
+            return False
+        same_rows = lambda: all(np.array_equal(np.asarray(a), np.asarray(b)) for a, b in zip(dst._array, src._array))
+        dst._data[...] = src._data                 # rows that are views of _data follow
+        if not same_rows() and isinstance(dst._array, np.ndarray) and isinstance(src._array, np.ndarray) \
+                and dst._array.shape == src._array.shape and dst._array.dtype == src._array.dtype:
+            dst._array[...] = copy.deepcopy(src._array)     # rows held as copies (equal row lengths): overwritten as well
+        return same_rows()
+    if isinstance(dst, dict):
+        return isinstance(src, dict) and sorted(dst) == sorted(src) and all(_overwrite(dst[k], src[k]) for k in sorted(dst))
+    if isinstance(dst, (list, tuple)):
+        return isinstance(src, type(dst)) and len(dst) == len(src) and all(_overwrite(a, b) for a, b in zip(dst, src))
+    return type(dst) is type(src) and dst == src
+
+
 ROUTINES = {
     "shannon_entropy": (g_entropy, b_entropy, c_entropy),
     "kl_divergence": (g_kl, b_kl, c_kl),
@@ -743,7 +919,157 @@ def _execute(case):
         out["args_rebuilt_equal"] = _digest(args2) == a0 or out["args_after_all"] is False
     except Exception as ex:
         out["fresh_args"] = {"err": "Build:" + type(ex).__name__}
+    # in-place-overwrite history probe: the SAME argument objects now receive content B
+    pb = case.get("params_b")
+    if pb is not None and out["args_after_all"]:
+        try:
+            argsB = build(pb)
+            applied = _overwrite(args, argsB) and _digest(args) == _digest(argsB)
+            out["ow_applied"] = bool(applied)
+            if applied:
+                _poison(sizes, "nan")
+                out["ow_same_obj"] = _run_once(call, args, pb)[0]
+                out["ow_args_kept"] = _digest(args) == _digest(argsB)
+                out["ow_fresh"] = _run_once(call, build(pb), pb)[0]
+                out["ow_changed"] = out["ow_same_obj"] != out["base"]
+        except Exception as ex:
+            out["ow_applied"] = False
+            out["ow_error"] = type(ex).__name__ + ": " + str(ex)[:120]
     return out
+
+
+# ============================================================================ loaders: files rewritten at the same path
+_SRC = {}
+
+
+def _src_traj():
+    if "t" not in _SRC:
+        import mdtraj as md
+        _SRC["t"] = md.load(os.path.join(_repo, "enspara", "test", "data", "frame0.h5"))
+    return _SRC["t"]
+
+
+def g_file_ra(rng):
+    nrows = rng.choice([1, 2, 3, 5])
+    lens = [rng.choice([1, 2, 3, 5]) for _ in range(nrows)]
+    if rng.random() < 0.3:
+        lens = [lens[0]] * nrows
+    return {"rows": [[rng.randint(-3, 6) for _ in range(L)] for L in lens], "dtype": rng.choice(["int64", "float64"]),
+            "as": rng.choice(["ragged", "ragged", "array"]), "rewrite": rng.choice(["replace", "truncate"])}
+
+
+def v_file_ra(rng, p):
+    q = copy.deepcopy(p)
+    if rng.random() < 0.5:
+        q["rows"] = [[rng.randint(-3, 6) for _ in r] for r in p["rows"]]             # same shape, other values
+    else:
+        q["rows"] = g_file_ra(rng)["rows"]                                            # other shape as well
+    if q["as"] == "array":
+        L = len(q["rows"][0])
+        q["rows"] = [(r + [0] * L)[:L] for r in q["rows"]]
+    return q
+
+
+def g_file_lac(rng):
+    k = rng.choice([1, 2, 3])
+    return {"lens": [rng.choice([1, 2, 4, 7]) for _ in range(k)], "offs": [rng.randrange(0, 400) for _ in range(k)],
+            "stride": rng.choice([1, 1, 2]), "rewrite": rng.choice(["replace", "truncate"])}
+
+
+def v_file_lac(rng, p):
+    q = copy.deepcopy(p)
+    q["offs"] = [(o + rng.randrange(20, 90)) % 400 for o in p["offs"]]
+    i = rng.randrange(len(p["lens"]))           # other frame counts too (a stale length table then shows)
+    q["lens"][i] = rng.choice([n for n in (1, 2, 4, 7) if n != p["lens"][i]])
+    return q
+
+
+def _file_write(routine, p, base, rewrite):
+    """write the file(s) of params p under the path stem `base`; existing files are replaced or truncated-and-rewritten"""
+    from enspara.ra import ra as R
+    if routine == "ra.load":
+        paths = [base + ".h5"]
+    else:
+        paths = ["%s_%d.h5" % (base, i) for i in range(len(p["lens"]))]
+    stats = {}
+    for q in paths:
+        if os.path.exists(q):
+            st = os.stat(q)
+            stats[q] = (st.st_atime_ns, st.st_mtime_ns)
+            if rewrite == "replace":
+                os.remove(q)
+            else:
+                open(q, "wb").close()
+                os.remove(q)              # PyTables refuses to create over an existing file either way
+    if routine == "ra.load":
+        flat = np.array([x for r in p["rows"] for x in r], dtype=p["dtype"])
+        if p["as"] == "array" and len({len(r) for r in p["rows"]}) == 1:
+            obj = flat.reshape(len(p["rows"]), -1)
+        else:
+            obj = R.RaggedArray(flat, lengths=[len(r) for r in p["rows"]])
+        R.save(paths[0], obj)
+    else:
+        src = _src_traj()
+        for q, n, off in zip(paths, p["lens"], p["offs"]):
+            src[off:off + n].save_hdf5(q)
+    for q, ns in stats.items():
+        os.utime(q, ns=ns)                # same path, same timestamps: only the contents differ
+    return paths
+
+
+def _file_load(routine, p, paths):
+    if routine == "ra.load":
+        from enspara.ra import ra as R
+        return R.load(paths[0])
+    from enspara.util.load import load_as_concatenated
+    kw = {} if p["stride"] == 1 else {"stride": p["stride"]}
+    lengths, xyz = load_as_concatenated(paths, processes=1, **kw)
+    return [[int(v) for v in lengths], np.array(xyz)]
+
+
+def _files_digest(paths):
+    h = hashlib.sha256()
+    for q in paths:
+        with open(q, "rb") as f:
+            h.update(f.read())
+    return h.hexdigest()[:20]
+
+
+def _execute_file(case):
+    routine, pa, pb = case["routine"], case["params"], case["params_b"]
+    d = tempfile.mkdtemp(prefix="c19f_", dir="/tmp")
+    load = lambda a, p: _file_load(routine, p, a)
+    out = {}
+    try:
+        paths = _file_write(routine, pa, os.path.join(d, "x"), pa["rewrite"])
+        f0 = _files_digest(paths)
+        r, v = _run_once(load, paths, pa)
+        out["base"] = r
+        out["args_after_base"] = _files_digest(paths) == f0
+        out["preview"] = _preview(v) if v is not None else None
+        sizes = _sizes([v])
+        out["n_sizes"] = len(sizes)
+        out["repeat"] = _run_once(load, paths, pa)[0]
+        _poison(sizes, "nan")
+        out["heap_nan"] = _run_once(load, paths, pa)[0]
+        _poison(sizes, "ff")
+        out["heap_ff"] = _run_once(load, paths, pa)[0]
+        out["args_after_all"] = _files_digest(paths) == f0
+        out["fresh_args"] = _run_once(load, _file_write(routine, pa, os.path.join(d, "z"), "replace"), pa)[0]
+        # the same path(s) now hold content B (a shorter list of files keeps the leading paths)
+        pathsB = _file_write(routine, pb, os.path.join(d, "x"), pa["rewrite"])
+        out["ow_applied"] = pathsB == paths[:len(pathsB)] and len(pathsB) == len(paths)
+        _poison(sizes, "nan")
+        out["ow_same_obj"] = _run_once(load, pathsB, pb)[0]
+        out["ow_args_kept"] = True
+        out["ow_fresh"] = _run_once(load, _file_write(routine, pb, os.path.join(d, "y"), "replace"), pb)[0]
+        out["ow_changed"] = out["ow_same_obj"] != out["base"]
+    finally:
+        shutil.rmtree(d, ignore_errors=True)
+    return out
+
+
+FILE_ROUTINES = {"ra.load": (g_file_ra, v_file_ra), "load_as_concatenated": (g_file_lac, v_file_lac)}
 
 
 # ============================================================================ child processes
@@ -816,7 +1142,7 @@ def _worker_main():
             continue
         case = json.loads(line)
         try:
-            r = _execute(case)
+            r = _execute_file(case) if case.get("kind") == "file" else _execute(case)
         except Exception as ex:
             r = {"err": "Harness:" + type(ex).__name__, "msg": str(ex)[:300]}
         r["omp"] = os.environ.get("OMP_NUM_THREADS")
@@ -847,20 +1173,93 @@ def _gen_ufunc(rng):
     return c
 
 
+def _gen_wbr(rng):
+    n = rng.choice([0, 1, 2, 3, 5, 8])
+    shape = rng.choice(["random", "random", "random", "tile", "tile", "enum", "fill", "full", "gap", "oob"])
+    c = {"kind": "wbr", "shape": shape, "n": n, "junk": [rng.randint(70, 79) for _ in range(n)]}
+    val = lambda: rng.randint(-5, 5)
+    if shape == "oob":
+        n = max(n, 1)
+        c["n"], c["junk"] = n, [rng.randint(70, 79) for _ in range(n)]
+        if rng.random() < 0.5:
+            c["prog"] = [["idx", n + rng.choice([0, 1, 3]), val()]]
+        else:
+            lo = rng.randint(0, n)
+            c["prog"] = [["slice", lo, [val() for _ in range(n - lo + rng.choice([1, 2]) + (1 if n - lo == 0 else 0))]]]
+            if len(c["prog"][0][2]) == 1:
+                c["prog"][0][2].append(val())       # a single value would broadcast
+        return c
+    if shape in ("tile", "gap"):
+        cuts = sorted(rng.randint(0, n) for _ in range(rng.choice([0, 1, 2, 3])))
+        bounds = [0] + cuts + [n]
+        c["segs"] = [[val() for _ in range(b - a)] for a, b in zip(bounds, bounds[1:])]
+        if shape == "gap":
+            nonempty = [i for i, sgm in enumerate(c["segs"]) if sgm]
+            c["skip"] = rng.choice(nonempty) if nonempty else None
+    elif shape == "enum":
+        c["vals"] = [val() for _ in range(n)]
+    elif shape == "fill":
+        c["prog"] = [["fill", val()]]
+    elif shape == "full":
+        c["prog"] = [["slice", 0, [val() for _ in range(n)]]]
+    else:
+        prog = []
+        for _ in range(rng.choice([0, 1, 2, 3, 4])):
+            k = rng.random()
+            if k < 0.12:
+                prog.append(["fill", val()])
+            elif k < 0.45 and n > 0:
+                prog.append(["idx", rng.randrange(n), val()])
+            else:
+                lo = rng.randint(0, n)
+                prog.append(["slice", lo, [val() for _ in range(rng.randint(0, n - lo))]])
+        c["prog"] = prog
+    return c
+
+
+def _wbr_prog(c):
+    """the flat list of stores the case performs (what NumPy is asked to do, and what the oracle reasons about)"""
+    if c["shape"] in ("tile", "gap"):
+        prog, start = [], 0
+        for i, sgm in enumerate(c["segs"]):
+            if not (c["shape"] == "gap" and i == c.get("skip")):
+                prog.append(["slice", start, sgm])
+            start += len(sgm)
+        return prog
+    if c["shape"] == "enum":
+        return [["idx", i, v] for i, v in enumerate(c["vals"])]
+    return c["prog"]
+
+
 def generate(rng, tier):
     per = 7 if tier == "quick" else 60
     few = 3 if tier == "quick" else 12
     cases = [{"kind": "sites"}]
     for _ in range(120 if tier == "quick" else 1200):
         cases.append(_gen_ufunc(rng))
+    for _ in range(100 if tier == "quick" else 1000):
+        cases.append(_gen_wbr(rng))
+
+    def add_run(name, p):
+        pb = p
+        for _ in range(8):                     # content B: same shapes, other values
+            pb = VARY[name](rng, p)
+            if pb != p:
+                break
+        cases.append({"kind": "run", "routine": name, "params": p, "params_b": pb})
     for name in ROUTINES:
         for _ in range(few if name in SLOW else per * WEIGHT.get(name, 1)):
-            cases.append({"kind": "run", "routine": name, "params": ROUTINES[name][0](rng)})
+            add_run(name, ROUTINES[name][0](rng))
     # in-place variants on dense input (the combination in which a missing defensive copy shows)
     for _ in range(4 if tier == "quick" else 30):
         p = g_trim(rng)
         p["ren"], p["fmt"] = False, "dense"
-        cases.append({"kind": "run", "routine": "trim_disconnected", "params": p})
+        add_run("trim_disconnected", p)
+    for name, n_ in (("ra.load", 8 if tier == "quick" else 60), ("load_as_concatenated", 3 if tier == "quick" else 16)):
+        g, v = FILE_ROUTINES[name]
+        for _ in range(n_):
+            p = g(rng)
+            cases.append({"kind": "file", "routine": name, "params": p, "params_b": v(rng, p)})
     return cases
 
 
@@ -874,8 +1273,47 @@ def _run_sites():
         return {"err": "TranslatorReject", "msg": str(ex)}
     summ = [sites.site_summary(s) for s in found]
     un = sites.uninit_allocs(_repo, files)
+    try:
+        _afiles, asites, pool_globals = sites.scan_allocs(_repo)
+    except TranslatorReject as ex:
+        return {"err": "TranslatorReject", "msg": str(ex)}
     return {"files": len(files), "pyx": sum(1 for f in files if f.endswith(".pyx")), "sites": summ,
-            "uninit_allocs": ["%s:%d np.%s" % u for u in un]}
+            "uninit_allocs": ["%s:%d np.%s" % u for u in un],
+            "allocs": [sites.alloc_summary(a) for a in asites],
+            "pool_globals": ["%s:%d %s global %s" % g for g in pool_globals]}
+
+
+def _run_wbr(c):
+    prog = _wbr_prog(c)
+
+    def go(junk):
+        a = np.array(junk, dtype=float)          # stands for np.empty(n): the allocator's cells
+        if c["shape"] in ("tile", "gap"):
+            start = 0                            # the loop of enspara/mpi/io.py, literally
+            for i, sgm in enumerate(c["segs"]):
+                end = start + len(sgm)
+                if not (c["shape"] == "gap" and i == c.get("skip")):
+                    a[start:end] = np.array(sgm, dtype=float)
+                start = end
+            assert end == len(a) if c["segs"] else True
+        elif c["shape"] == "enum":
+            for i, v in enumerate(c["vals"]):
+                a[i] = v
+        else:
+            for op in prog:
+                if op[0] == "fill":
+                    a.fill(op[1])
+                elif op[0] == "idx":
+                    a[op[1]] = op[2]
+                else:
+                    a[op[1]:op[1] + len(op[2])] = np.array(op[2], dtype=float)
+        return a
+    try:
+        r1 = go(c["junk"])
+        r2 = go([v + 100 for v in c["junk"]])
+        return {"val": [int(v) for v in r1.tolist()], "indep": bool(np.array_equal(r1, r2))}
+    except Exception as ex:
+        return {"err": type(ex).__name__}
 
 
 def _run_ufunc(c):
@@ -901,6 +1339,8 @@ def run_impl(c):
         return _run_sites()
     if c["kind"] == "ufunc":
         return _run_ufunc(c)
+    if c["kind"] == "wbr":
+        return _run_wbr(c)
     res = {}
     res["t1"] = _child("t1", 1).call(c)
     res["t8"] = _child("t8", 8).call(c)
@@ -922,6 +1362,32 @@ def oracle(c, r):
         for s in r["sites"]:
             if s["kind"] == "masked" and not s["guarded"]:
                 out.append(("unguarded-masked-site", "%s:%d in %s: %s -- %s" % (s["file"], s["line"], s["func"], s["call"], s["guard"])))
+        # every textual np.empty / empty_like / ndarray( token of the tree is one of the classified allocation sites
+        listed = {(a["file"], a["line"]) for a in r.get("allocs", [])}
+        for u in r.get("uninit_allocs", []):
+            loc = u.split(" ")[0]
+            fn_, ln_ = loc.rsplit(":", 1)
+            if (fn_, int(ln_)) not in listed:
+                out.append(("unclassified-allocation", u))
+        return out
+    if c["kind"] == "wbr":
+        prog, n = _wbr_prog(c), c["n"]
+        fits = all(op[0] == "fill" or (op[0] == "idx" and op[1] < n) or (op[0] == "slice" and op[1] + len(op[2]) <= n)
+                   for op in prog)
+        if fits == ("err" in r):
+            out.append(("numpy-store-shape", "%s: %s" % (c, r)))
+        if "err" not in r:
+            cells = [False] * n
+            for op in prog:
+                if op[0] == "fill":
+                    cells = [True] * n
+                elif op[0] == "idx":
+                    cells[op[1]] = True
+                else:
+                    for i in range(op[1], op[1] + len(op[2])):
+                        cells[i] = True
+            if all(cells) != r["indep"]:
+                out.append(("write-before-read", "every cell stored: %s, result independent of the junk: %s; %s" % (all(cells), r["indep"], c)))
         return out
     if c["kind"] == "ufunc":
         n = len(c["x"])
@@ -932,6 +1398,16 @@ def oracle(c, r):
     name = c["routine"]
     for lab in ("t1", "t8", "young"):
         w = r.get(lab, {})
+        if w.get("ow_applied") and w.get("ow_same_obj") != w.get("ow_fresh"):
+            out.append(("overwrite-history-dependence:" + name,
+                        "%s child: after the argument objects%s were overwritten in place with new contents the routine "
+                        "returned %s, on freshly built objects with the same contents %s (first call, old contents: %s); "
+                        "params %s; new contents %s" % (lab, " (files at the same paths)" if c["kind"] == "file" else "",
+                                                        w.get("ow_same_obj"), w.get("ow_fresh"), w.get("base"),
+                                                        json.dumps(c["params"])[:300], json.dumps(c["params_b"])[:300])))
+        if w.get("ow_applied") and w.get("ow_args_kept") is False:
+            out.append(("argument-mutated:" + name, "%s child: an argument array changed during the call on the overwritten "
+                        "objects; params %s" % (lab, json.dumps(c["params_b"])[:400])))
         if "err" in w:
             out.append(("crash:" + name, "%s child: %s (params %s)" % (lab, w, json.dumps(c["params"])[:300])))
     if out:
@@ -983,8 +1459,17 @@ def coq_check(c, r):
         lines = [s["line"] for s in r["sites"] if s["kind"] == "masked"]
         others = sum(1 for s in r["sites"] if s["kind"] != "masked")
         nl = "(@nil nat)" if not lines else "[" + "; ".join("%d%%nat" % l for l in lines) + "]"
+        alines = [a["line"] for a in r["allocs"]]
+        anl = "(@nil nat)" if not alines else "[" + "; ".join("%d%%nat" % l for l in alines) + "]"
         return ("Nat.eqb n_masked_sites %d%%nat && Nat.eqb n_other_where_calls %d%%nat && Nat.eqb n_scanned_files %d%%nat "
-                "&& CaseLib.nl_eqb masked_site_lines %s" % (len(lines), others, r["files"], nl))
+                "&& CaseLib.nl_eqb masked_site_lines %s && Nat.eqb n_alloc_sites %d%%nat && CaseLib.nl_eqb alloc_site_lines %s "
+                "&& Nat.eqb n_pool_globals %d%%nat && Nat.eqb n_cache_idioms 0 && Nat.eqb n_alloc_scanned_files %d%%nat"
+                % (len(lines), others, r["files"], nl, len(alines), anl, len(r["pool_globals"]), r["files"]))
+    if c["kind"] == "wbr":
+        if "err" in r:
+            return None
+        return ("CaseLib.ql_eqb (run %s %s) %s && Bool.eqb (all_written %s %d%%nat) %s"
+                % (_wbr_term(c), _ql(c["junk"]), _ql(r["val"]), _wbr_term(c), c["n"], "true" if r["indep"] else "false"))
     if c["kind"] == "ufunc":
         if "err" in r:
             init = c["init"] if c["init"] is not None else c["x"]
@@ -995,6 +1480,22 @@ def coq_check(c, r):
         junk = [0 if v is None else v for v in r["val"]]
         return "CaseLib.opt_eqb CaseLib.ql_eqb (%s) (Some %s)" % (_model_term(c, junk), _ql(junk))
     return None
+
+
+def _wbr_term(c):
+    if c["shape"] == "tile":
+        return "(tile_prog 0 %s)" % ("(@nil (list Q))" if not c["segs"] else "[" + "; ".join(_ql(sg) for sg in c["segs"]) + "]")
+    if c["shape"] == "enum":
+        return "(enum_prog %s)" % _ql(c["vals"])
+    ops = []
+    for op in _wbr_prog(c):
+        if op[0] == "fill":
+            ops.append("WFill %s" % _q(op[1]))
+        elif op[0] == "idx":
+            ops.append("WIdx %d%%nat %s" % (op[1], _q(op[2])))
+        else:
+            ops.append("WSlice %d%%nat %s" % (op[1], _ql(op[2])))
+    return "(@nil (wr Q))" if not ops else "[" + "; ".join(ops) + "]"
 
 
 def _model_term(c, init):
@@ -1010,6 +1511,8 @@ def coq_show(c):
         return "(n_masked_sites, n_other_where_calls, n_scanned_files, masked_site_lines)"
     if c["kind"] == "ufunc":
         return _model_term(c, c["init"] if c["init"] is not None else [0] * len(c["x"]))
+    if c["kind"] == "wbr":
+        return "(run %s %s, all_written %s %d%%nat)" % (_wbr_term(c), _ql(c["junk"]), _wbr_term(c), c["n"])
     return "tt"
 
 
@@ -1025,7 +1528,21 @@ def nontrivial(c, r):
         return "err" not in r and any(s["kind"] == "masked" for s in r["sites"])
     if c["kind"] == "ufunc":
         return "err" not in r and any(c["m"]) and not all(c["m"])
+    if c["kind"] == "wbr":
+        return "err" not in r and c["n"] > 0 and len(_wbr_prog(c)) > 0
     return _ok_everywhere(r)
+
+
+def _probe_state(r):
+    """'changed' when the overwrite probe ran in all three children and the new contents changed the result,
+    'same' when it ran but the result happened to be the same, 'skipped' otherwise"""
+    try:
+        ws = [r[lab] for lab in ("t1", "t8", "young")]
+    except (KeyError, TypeError):
+        return "skipped"
+    if not all(isinstance(w, dict) and w.get("ow_applied") for w in ws):
+        return "skipped"
+    return "changed" if all(w.get("ow_changed") for w in ws) else "same"
 
 
 def _has_masked_out(c):
@@ -1055,11 +1572,23 @@ def tags(c, r):
         t = ["sites-scan"]
         t += ["masked-site-guarded" if s["guarded"] else "masked-site-UNGUARDED" for s in r["sites"] if s["kind"] == "masked"]
         t += ["where-call-not-a-mask" for s in r["sites"] if s["kind"] != "masked"]
-        t += ["uninit-alloc-not-modelled" for _ in r.get("uninit_allocs", [])]
+        t += ["alloc-site-" + a["pattern"] for a in r.get("allocs", [])]
+        t += ["pool-initialiser-global" for _ in r.get("pool_globals", [])]
+        t.append("cache-scan-clean")
         return t
+    if c["kind"] == "wbr":
+        if "err" in r:
+            return ["wbr-" + c["shape"] + "-rejected"]
+        return ["wbr-" + c["shape"], "wbr-all-written" if r["indep"] else "wbr-cell-left-unwritten"]
     if c["kind"] == "ufunc":
         return ["ufunc-" + c["mode"] + ("-rejected" if "err" in r else "")]
     t = ["run:" + c["routine"]]
+    ps = _probe_state(r)
+    t.append("overwrite-probe-" + ps)
+    if ps != "skipped":
+        t.append("overwrite-probe:" + c["routine"])
+    if c["kind"] == "file":
+        t.append("file-rewritten-at-same-path" if ps == "changed" else "file-probe-" + ps)
     if _ok_everywhere(r):
         t.append("value:" + c["routine"])
     else:
@@ -1077,7 +1606,11 @@ def tags(c, r):
 
 ESSENTIAL_TAGS = (["sites-scan", "masked-site-guarded", "ufunc-out", "ufunc-noout", "ufunc-badmask-rejected", "ufunc-badout-rejected",
                    "poisoned-out-buffer", "heap-perturbed", "threads-8"]
-                  + ["value:" + n for n in ROUTINES] + ["masked-out-cells:" + n for n in sorted(MASKED_ROUTINES)])
+                  + ["value:" + n for n in ROUTINES] + ["masked-out-cells:" + n for n in sorted(MASKED_ROUTINES)]
+                  + ["alloc-site-fill", "alloc-site-tile", "alloc-site-enum", "alloc-site-recv", "cache-scan-clean",
+                     "wbr-random", "wbr-tile", "wbr-enum", "wbr-gap", "wbr-oob-rejected", "wbr-all-written",
+                     "wbr-cell-left-unwritten", "overwrite-probe-changed", "file-rewritten-at-same-path"]
+                  + ["overwrite-probe:" + n for n in ROUTINES] + ["value:" + n for n in ("ra.load", "load_as_concatenated")])
 
 
 def search(rng, tier):
